@@ -13,6 +13,9 @@ type C13Case struct {
 	// file content at that moment: "good" (hashes to Checksum) or "tampered" (good + 2 bytes).
 	Steps       []string `json:"steps,omitempty"`
 	CallerReset bool     `json:"callerReset,omitempty"` // the caller calls Hash.Reset() before each launch
+	// InPlace (histories): the file is not replaced but rewritten in place (same inode) with content of the
+	// same length (a tampered file differs in its last byte), and its modification time is put back afterwards
+	InPlace bool `json:"inPlace,omitempty"`
 	// PathKind: how the command path names the file. "" = plain path. Otherwise two files exist, the one the
 	// checksum was computed from ("approved") and a tampered one (approved + 2 bytes), and the path reaches
 	// one of them in a way in which lexical and kernel path resolution differ or a symlink is involved:
